@@ -23,9 +23,9 @@ pub mod packed {
     pub use super::Byte32;
     /// ckb-types packed::Block: header (hash id, number, transactions_root, extra_hash) + body id + (uncles, extension) id
     #[derive(Clone, Copy, Default, PartialEq, Eq, Debug)]
-    pub struct Block { pub id: u8, pub number: u64, pub tx_root: u8, pub extra: u8, pub body: u8, pub aux: u8 }
+    pub struct Block { pub id: u8, pub number: u64, pub timestamp: u64, pub tx_root: u8, pub extra: u8, pub body: u8, pub aux: u8 }
     impl Block {
-        pub fn header(&self) -> PHeader { PHeader(HeaderView { id: self.id, number: self.number, tx_root: self.tx_root, extra_hash: self.extra, ..Default::default() }) }
+        pub fn header(&self) -> PHeader { PHeader(HeaderView { id: self.id, number: self.number, timestamp: self.timestamp, tx_root: self.tx_root, extra_hash: self.extra, ..Default::default() }) }
         /// ckb-types: "converts into a BlockView without resetting the header"
         pub fn into_view_without_reset_header(self) -> BlockView { BlockView { b: self } }
         /// ckb-types: "calculates transaction associated hashes, RESETS all hashes and merkle roots in the header"
@@ -53,8 +53,8 @@ impl BlockView {
 }
 // ---- ghost -----------------------------------------------------------------------------------------------------
 #[derive(Clone, Copy, PartialEq, Eq, Debug)] pub enum Ev { None, Remove(u64), Filter(u8, u8), BlockNumber(u64) }
-pub struct Ghost { pub ev: [Ev; 6], pub n: usize, pub banned: bool, pub locked: bool, pub write_unlocked: bool, pub writes: usize, pub crash_after: usize, pub asked_more: bool }
-pub static mut G: Ghost = Ghost { ev: [Ev::None; 6], n: 0, banned: false, locked: false, write_unlocked: false, writes: 0, crash_after: usize::MAX, asked_more: false };
+pub struct Ghost { pub ev: [Ev; 6], pub n: usize, pub banned: bool, pub locked: bool, pub write_unlocked: bool, pub writes: usize, pub crash_after: usize, pub asked_more: bool, pub nfilt: usize, pub last_num: u64, pub out_of_order: bool }
+pub static mut G: Ghost = Ghost { ev: [Ev::None; 6], n: 0, banned: false, locked: false, write_unlocked: false, writes: 0, crash_after: usize::MAX, asked_more: false, nfilt: 0, last_num: 0, out_of_order: false };
 /// one storage write operation: takes effect only before the crash point
 fn admit(e: Ev) -> bool { unsafe { if !G.locked { G.write_unlocked = true; } let ok = G.writes < G.crash_after; G.writes += 1; if ok { assert!(G.n < 6, "MODEL-BOUND: ghost log"); G.ev[G.n] = e; G.n += 1; } ok } }
 // ---- storage model: pending matched-block records ----------------------------------------------------------------
@@ -64,7 +64,7 @@ pub struct Storage;
 impl Storage {
     pub fn get_earliest_matched_blocks(&self) -> Option<Record> { unsafe { if RECORDS[0].is_some() { RECORDS[0] } else { RECORDS[1] } } }
     pub fn remove_matched_blocks(&self, start: u64) { if admit(Ev::Remove(start)) { unsafe { let mut i = 0; while i < 2 { if let Some(r) = RECORDS[i] { if r.0 == start { RECORDS[i] = None; } } i += 1; } } } }
-    pub fn filter_block(&self, b: packed::Block) { admit(Ev::Filter(b.id, b.body)); }
+    pub fn filter_block(&self, b: packed::Block) { if admit(Ev::Filter(b.id, b.body)) { unsafe { if G.nfilt > 0 && b.number < G.last_num { G.out_of_order = true; } G.last_num = b.number; G.nfilt += 1; } } }
     pub fn update_block_number(&self, n: u64) { admit(Ev::BlockNumber(n)); }
     pub fn get_tip_header(&self) -> packed::Header { packed::Header }
 }
@@ -94,14 +94,14 @@ mod harness {
     use super::*;
     static NC: Nc = Nc;
     fn committed(b: &packed::Block) -> bool { unsafe { H_TX.apply(b.body as u64) == b.tx_root && H_AUX.apply(b.aux as u64) == b.extra } }
-    fn any_block(id: u8) -> packed::Block { packed::Block { id, number: kani::any(), tx_root: kani::any(), extra: kani::any(), body: kani::any(), aux: kani::any() } }
+    fn any_block(id: u8) -> packed::Block { packed::Block { id, number: kani::any(), timestamp: kani::any(), tx_root: kani::any(), extra: kani::any(), body: kani::any(), aux: kani::any() } }
     fn count(e: Ev) -> usize { unsafe { let mut c = 0; let mut i = 0; while i < G.n { if G.ev[i] == e { c += 1; } i += 1; } c } }
 
     /// Representation invariant of (stored records, in-memory matched blocks): the in-memory map holds exactly the hashes of the
     /// earliest stored record; a block already downloaded was accepted earlier (proved entry, committed body, right hash).
     struct Pre { rec: Record, m0: Matched, nrec: usize }
     unsafe fn arbitrary_state() -> Pre {
-        G.n = 0; G.banned = false; G.locked = false; G.write_unlocked = false; G.writes = 0; G.asked_more = false;
+        G.n = 0; G.banned = false; G.locked = false; G.write_unlocked = false; G.writes = 0; G.asked_more = false; G.nfilt = 0; G.last_num = 0; G.out_of_order = false;
         let start: u64 = kani::any(); let cnt: u64 = kani::any(); kani::assume(cnt >= 1 && start >= 1 && start.checked_add(cnt).is_some());
         let nh: usize = kani::any(); kani::assume(nh >= 1 && nh <= 2);
         let mut hs = Vec::new(); let mut m = HashMap::new();
@@ -149,6 +149,8 @@ mod harness {
                 } }
                 i += 1;
             }
+            // filter_block recognises a spent cell only if the creating transaction is already indexed: the blocks of a record go in CHAIN order
+            assert!(!G.out_of_order, "SPEC block arrival: the matched blocks of a record are not indexed in block-number order");
             if nf > 0 && !CRASH {
                 assert!(count(Ev::Remove(pre.rec.0)) == 1 && G.ev[0] == Ev::Remove(pre.rec.0), "SPEC block arrival: blocks indexed without consuming their pending record first");
                 assert!(G.ev[G.n - 1] == Ev::BlockNumber(pre.rec.0 + pre.rec.1 - 1), "SPEC block arrival: script block numbers not raised to the end of the record's range after indexing");
